@@ -128,7 +128,10 @@ func mkEvent(ts int64, ses, typ, pidTok, result string, nargs int) *aucoalesce.E
 	// the fields the correlator does not read vary from event to event (derived from the time stamp): code that starts
 	// to depend on one of them no longer behaves like the model
 	h := uint64(ts)*0x9E3779B97F4A7C15 + uint64(len(ses))
-	pick := func(xs ...string) string { h = h*6364136223846793005 + 1442695040888963407; return xs[(h>>33)%uint64(len(xs))] }
+	pick := func(xs ...string) string {
+		h = h*6364136223846793005 + 1442695040888963407
+		return xs[(h>>33)%uint64(len(xs))]
+	}
 	e.Process.Exe = pick("", "/usr/sbin/sshd", "/usr/sbin/sshd-session", "/usr/sbin/sshd (deleted)", "/usr/bin/sudo", "/bin/bash", "/usr/bin/su")
 	e.Process.Name = pick("", "sshd", "sudo", "bash", "cron")
 	e.Process.CWD = pick("", "/", "/root", "/home/u")
